@@ -295,7 +295,7 @@ def djs_reject(data, model, outmask=None, inmask=None, sigma=None,
             groupsize = len(data)
     if sigma is None and invvar is None:
         if inmask is not None:
-            igood = (inmask & outmask).nonzero()[0]
+            igood = ((np.asarray(inmask) != 0) & (np.asarray(outmask) != 0)).nonzero()[0]
         else:
             igood = outmask.nonzero()[0]
         if len(igood > 1):
@@ -446,7 +446,7 @@ def djs_reject(data, model, outmask=None, inmask=None, sigma=None,
     # Set qdone if the input outmask is identical to the output outmask;
     # convert np.bool to Python built-in bool.
     #
-    qdone = bool(np.all(newmask == outmask))
+    qdone = bool(np.all(newmask == (np.asarray(outmask) != 0)))
     outmask = newmask
     return (outmask, qdone)
 
